@@ -839,8 +839,8 @@ def get_length_scale(
     which also returns the actual structure factor. The method
     `structure_factor_maximum` also allows for some smoothing of the radially averaged
     structure factor. If the parameter `smoothing` is set to `None` the amount of
-    smoothing is determined automatically from the typical discretization of the
-    underlying grid. For the method `droplet_detection`, additional arguments are
+    smoothing is determined automatically from the spacing of the wave numbers supported
+    by the underlying grid. For the method `droplet_detection`, additional arguments are
     forwarded to :func:`locate_droplets`.
 
     Returns:
@@ -864,7 +864,8 @@ def get_length_scale(
         # smooth the structure factor
         smoothing = kwargs.pop("smoothing", None)
         if smoothing is None:
-            smoothing = 0.01 * scalar_field.grid.typical_discretization
+            # use a small fraction of the spacing between the wave numbers of the grid
+            smoothing = 1e-3 * 2 * np.pi / scalar_field.grid.cuboid.size.max()
         sf_smooth = SmoothData1D(k_mag, sf, sigma=smoothing)
 
         # find the maximum
